@@ -29,11 +29,27 @@ CLAIMS = {
                   "run-level correspondence over all lists/strings of length ≤4/≤5 × all indices/bounds in [-2,len+2] incl. omitted × read / "
                   "element assign / range assign; Python slicing with explicit domains is the model-free oracle.",
              ref="§6 C11", technique="Lean 4 theorems on the model's sequence primitives + exhaustive index-grid correspondence + Python oracle"),
- "C17": dict(text="Lean `decide` theorems over the tables regenerated from the source on every run (every context wrapper of the error enum "
+ "C17": dict(text="Lean theorems: every error any evaluator function returns is located (G5, induction over all 23 functions), a located "
+                  "error renders as `<l>:<c>:[ in 'f':] msg`, the stack trace has one line per active call ending at <root>, failures keep the "
+                  "output printed so far (G3), success is silent; `decide` theorems over the tables regenerated from the source on every run (every context wrapper of the error enum "
                   "is looked through by the CLI renderer or is a position/frame carrier); run-level correspondence of the full stderr text on "
                   "error kind × syntactic position × call depth × context; model-free oracle = stderr grammar, planted call chain vs stack "
                   "trace, planted prints vs stdout, no internal identifiers. Known finding K1 is reported as KNOWN-FINDING.",
-             ref="§6 C17", technique="Lean 4 decide-theorems over extracted tables + model/implementation stderr correspondence + grammar oracle"),
+             ref="§6 C17", technique="Lean 4 theorems (err_located, render shape) + decide-theorems over extracted tables + stderr correspondence + grammar oracle"),
+
+ "C01": dict(text="The Lean evaluator is the independent executable reading of docs/features.md. Theorems: the meaning of a terminating "
+                  "program does not depend on the fuel (G1, all 23 evaluator functions), statement sequences compose (seq_compose), an "
+                  "escaping statement cuts the sequence. Tie: the model and the implementation must both reproduce the maintainers' "
+                  "expectations of all 336 suite scripts, every `print(…) # x` expectation of the documentation is checked on the "
+                  "implementation (model-free), and on generated programs a CLI-confirmed difference between implementation and model "
+                  "in stdout / status / diagnostic is a violation with the shrunk program as replay.",
+             ref="§6 C01", technique="Lean 4 executable semantics + fuel-independence/sequencing theorems + whole-run differential correspondence"),
+ "C19": dict(text="Lean decide-theorems over tables regenerated from the source (the only hash-ordered iteration is collected into a "
+                  "BTreeMap; the only environment/file-system uses are args, current_dir, read_to_string, exit), rendering theorems on the "
+                  "model; tie + Python depth-passing pretty-printer on nested values built along three construction histories; "
+                  "determinism of the binary (which no model can exhibit) is tested by repeated CLI runs under varied cwd, locale, "
+                  "environment, path spelling, stdin and stdout kinds — partial by nature for that part.",
+             ref="§6 C19", technique="Lean 4 theorems on render model + decide-theorems over extracted tables + repeated-run determinism oracle"),
 }
 
 PENDING = {
